@@ -211,12 +211,32 @@ func case18(r *rand.Rand, hist map[string]int) (string, any, string, bool) {
 	if r.Intn(10) > 0 {
 		fields = map[string]any{}
 		for i := r.Intn(4); i >= 0; i-- {
-			fields[fmt.Sprintf("f%d", i)] = g.doc(1+r.Intn(3), actions)
+			name := fmt.Sprintf("f%d", i)
+			if actions && len(g.envKeys) > 0 && r.Intn(5) == 0 { // a template action in a top-level field name
+				name += "{{ ." + g.envKeys[r.Intn(len(g.envKeys))] + " }}"
+			}
+			fields[name] = g.doc(1+r.Intn(3), actions)
 		}
 	}
 	fieldsG := jdocOf(map[string]any(fields))
 	if fields == nil {
 		fieldsG = "(JMap [])" // Build turns absent fields into an empty map when an environment exists
+	}
+	if r.Intn(3) == 0 {
+		// an unrelated spec whose template writes some text and then fails while executing is built (and rejected)
+		// first: what the next Build returns must not depend on it
+		bad := &spec.Unstructured{
+			Meta:   spec.Meta{ID: uid(8), Kind: "k", Namespace: ns, Env: map[string]spec.Value{"HOST": {Data: "localhost"}}},
+			Fields: map[string]any{"addr": "tcp://{{ .HOST }}:{{ .HOST.port }}", "z": map[string]any{"k{{ .HOST }}{{ .HOST.x.y }}": 1}},
+		}
+		func() {
+			defer func() { _ = recover() }()
+			if err := bad.Bind(); err == nil {
+				if err := bad.Build(); err != nil {
+					hist["poisoned_before"]++
+				}
+			}
+		}()
 	}
 	u := &spec.Unstructured{Meta: spec.Meta{ID: uid(9), Kind: "k", Namespace: ns, Env: env}, Fields: fields}
 	obs, fail := "", ""
